@@ -120,6 +120,16 @@ def shrink(c):
             yield dict(c, train=t)
 
 
+# functions of the implementation this property is anchored in: their line coverage under the correspondence cases is
+# measured on the staged copy and reported in the evidence (implementation_line_coverage)
+ANCHORS = [
+    "datascope/importance/utility.py:SklearnModelAccuracy.elementwise_score",
+    "datascope/importance/utility.py:SklearnModelAccuracy.elementwise_null_score",
+    "datascope/importance/utility.py:SklearnModelRocAuc.elementwise_score",
+    "datascope/importance/utility.py:SklearnModelRocAuc.elementwise_null_score",
+    "datascope/importance/utility.py:SklearnModelUtility.null_score",
+]
+
 MANIFEST = {
     "text": "Proof: C14_accuracy_mean (any number of classes: mean of the picked element-wise entries = accuracy), "
             "C14_accuracy_null (mean element-wise null = null score = the attained minimum over constant training-class "
